@@ -1,8 +1,10 @@
 package props
 
 import (
+	"context"
 	"encoding/json"
 	"fmt"
+	"github.com/compose-spec/compose-go/v2/cli"
 	"os"
 	"path/filepath"
 	"sort"
@@ -23,7 +25,7 @@ type c01 struct{}
 func (c01) ID() string    { return "C01" }
 func (c01) Level() string { return "exploration" }
 func (c01) Rule() string {
-	return "(a) every attribute path of the schema (read from /repo/schema/compose-spec.json at run time) x 17 YAML node kinds (incl. two lists repeating their keys) placed at that path, as a single file, as a second document, as an override of the valid witness, as the base under a valid override, in an extended base, in an included file, and against the full corpus document as override / overridden / extending / extended / including / included; every pair of kinds as (base, override) at the same path; the tags !reset / !override on 6 node shapes at every path and at the document root (single file, override of the full document, second document); (b) the single-file matrix under each of 10 load options flipped alone and all together (thorough: more option sets); (b') every pair of valid service attribute values of the three full corpus documents (whole, and cut down to each single child / grandchild of a mapping) on one service; (c) YAML alias/anchor cycles and merge keys, extends, include (every spelling of every edge incl. multi-path entries) and depends_on cycles; (d) every {present, absent, directory-in-place} state vector of the files referenced by 5 scenarios (override, extends chain, nested include with env files, env_file/label_file, cli .env); (e) every distance-1 byte edit (delete, insert/replace by 18 significant bytes) of 6 seed documents. Oracle: exactly one of project/error, no panic, no process death, no hang; cycles and missing required files are errors naming the file. distinct = distinct (position, kind, route, options) outcomes"
+	return "(a) every attribute path of the schema (read from /repo/schema/compose-spec.json at run time) x 17 YAML node kinds (incl. two lists repeating their keys) placed at that path, as a single file, as a second document, as an override of the valid witness, as the base under a valid override, in an extended base, in an included file, and against the full corpus document as override / overridden / extending / extended / including / included; every pair of kinds as (base, override) at the same path; the single-file matrix through loader.LoadModelWithContext, cli LoadProject and cli LoadModel; the tags !reset / !override on 6 node shapes at every path and at the document root (single file, override of the full document, second document); (b) the single-file matrix under each of 10 load options flipped alone and all together (thorough: more option sets); (b') every pair of valid service attribute values of the three full corpus documents (whole, and cut down to each single child / grandchild of a mapping) on one service; (c) YAML alias/anchor cycles and merge keys, extends, include (every spelling of every edge incl. multi-path entries) and depends_on cycles; (d) every {present, absent, directory-in-place} state vector of the files referenced by 5 scenarios (override, extends chain, nested include with env files, env_file/label_file, cli .env); (e) every distance-1 byte edit (delete, insert/replace by 18 significant bytes) of 6 seed documents. Oracle: exactly one of project/error, no panic, no process death, no hang; cycles and missing required files are errors naming the file. distinct = distinct (position, kind, route, options) outcomes"
 }
 func (c01) Assumptions() []string {
 	return []string{
@@ -340,6 +342,7 @@ func (c01) Run(c *core.Ctx) {
 			}
 		}
 	}
+	c01entryPoints(c, paths)
 	c01tags(c, paths)
 	c01validPairs(c)
 	c01cycles(c)
@@ -347,6 +350,73 @@ func (c01) Run(c *core.Ctx) {
 	c01refcycles(c)
 	c01files(c)
 	c01bytes(c)
+}
+
+// c01entryPoints: the single-file kind matrix through the other public ways of loading: the dictionary-returning
+// loader.LoadModelWithContext and the cli package (NewProjectOptions + LoadProject / LoadModel). Same oracle: exactly
+// one of result / error, no panic.
+func c01entryPoints(c *core.Ctx, paths [][]string) {
+	for _, p := range paths {
+		ps := strings.Join(p, ".")
+		for _, k := range c01kinds {
+			doc := mapToYAML(c01docAt(p, k.val))
+			for _, via := range []string{"LoadModelWithContext", "cli.LoadProject", "cli.LoadModel"} {
+				if c.Expired() {
+					return
+				}
+				doc, via := doc, via
+				id := fmt.Sprintf("via/%s/%s/%s", via, ps, k.name)
+				c.Do(id, func() core.Outcome {
+					var resNil bool
+					var err error
+					perr := core.Try(func() error {
+						switch via {
+						case "LoadModelWithContext":
+							cd := types.ConfigDetails{WorkingDir: Scratch(), Environment: map[string]string{"U": "u"},
+								ConfigFiles: []types.ConfigFile{{Filename: filepath.Join(Scratch(), "compose.yaml"), Content: []byte(doc)}}}
+							var m map[string]any
+							m, err = loader.LoadModelWithContext(context.Background(), cd, func(o *loader.Options) { o.SetProjectName("proj", true) })
+							resNil = m == nil
+						default:
+							scratchSeq++
+							dir := filepath.Join(Scratch(), fmt.Sprintf("cli%d", scratchSeq&63))
+							os.MkdirAll(dir, 0o755)
+							f := filepath.Join(dir, "compose.yaml")
+							os.WriteFile(f, []byte(doc), 0o644)
+							var po *cli.ProjectOptions
+							po, err = cli.NewProjectOptions([]string{f}, cli.WithWorkingDirectory(dir), cli.WithName("proj"), cli.WithEnv([]string{"U=u"}))
+							if err != nil {
+								resNil = true
+								return nil
+							}
+							if via == "cli.LoadProject" {
+								var p *types.Project
+								p, err = po.LoadProject(context.Background())
+								resNil = p == nil
+							} else {
+								var m map[string]any
+								m, err = po.LoadModel(context.Background())
+								resNil = m == nil
+							}
+						}
+						return nil
+					})
+					if pe, ok := perr.(*core.PanicError); ok {
+						return core.Outcome{Class: "panic", Sample: map[string]any{"case": id, "doc": doc},
+							Viol: &core.Violation{Key: "panic-site=" + pe.Site + ":" + panicClass(pe.Val) + ":" + via, Msg: fmt.Sprintf("%s: panics: %v (at %s)", id, pe.Val, pe.Site), Detail: map[string]any{"doc": doc, "stack": trunc(pe.Stack, 3000)}}}
+					}
+					if resNil == (err == nil) {
+						return core.Outcome{Class: "both", Sample: map[string]any{"case": id, "doc": doc}, Viol: &core.Violation{Key: "neither-or-both:" + via, Msg: fmt.Sprintf("%s: result nil=%v error nil=%v", id, resNil, err == nil)}}
+					}
+					cls := "ok"
+					if err != nil {
+						cls = "error"
+					}
+					return core.Outcome{Class: "via/" + via + "/" + ps + "/" + k.name + "/" + cls}
+				})
+			}
+		}
+	}
 }
 
 // c01tags: the merge tags !reset and !override on a node of every kind at every schema path and at the document root,
